@@ -360,3 +360,14 @@ Proof.
   destruct (step c o s x) as [s1 ot]. specialize (IH s1 (sent ++ o_reqs ot)%list (match x with OResp _ nonce _ => (rcvd ++ [(s_stream s, nonce)])%list | _ => rcvd end)).
   destruct (run c o s1 h) as [s2 ots]. cbn [fst snd flat_map] in *. destruct IH as [A B]. split; [exact A|]. rewrite B, app_assoc. reflexivity.
 Qed.
+
+(** non-vacuity: a history with a subscription, a missing lookup, an accepted response and a reconnect *)
+Lemma wire_example_proof :
+  let c := {| sc_nds_required := false; sc_f := {| f_ns := "default"; f_dom := "cluster.local" |} |} in
+  let o := mk_oracle [] [] [] in
+  let cl n := RGood {| cl_name := n; cl_type := Some 3; cl_lb := 0; cl_eds_service := None; cl_outlier := None; cl_load := None |} in
+  let h := [OSubscribe TCl "a"; OLookup TCl "b"; OResp "7" "n7" (PCds [cl "a"]); ORecvErr false; OLookup TCl "c"] in
+  let '(s, sent, rcvd) := runw c o init_state h [] [] in
+  (s_stream s, option_map q_names (last_on TCl (s_stream s) sent), map (fun sq => (fst sq, q_nonce (snd sq))) sent, rcvd) =
+  (1%N, Some ["c"; "b"; "a"], [(0%N, ""); (0%N, ""); (0%N, "n7"); (1%N, ""); (1%N, "")], [(0%N, "n7")]).
+Proof. vm_compute. reflexivity. Qed.
